@@ -3,6 +3,7 @@ package main
 import (
 	"fmt"
 	"math/rand"
+	"os"
 )
 
 func init() { commands["c02"] = runC02 }
@@ -57,6 +58,9 @@ func runC02(o *opts) (*summary, error) {
 		d.script = func(method string, req []byte) [][]byte { return [][]byte{mk(l, req)} }
 		rec := doCall(u, d, cs)
 		rec["cfg"] = cfgP
+		if tz := os.Getenv("TZ"); tz != "" && tz != "UTC" {
+			rec["tz"] = tz
+		}
 		w.put(rec, class, fmt.Sprintf("%s%v", argKey(cs), rec["delivered"]))
 	}
 	serialOf := func() uint32 {
@@ -73,6 +77,33 @@ func runC02(o *opts) (*summary, error) {
 			return 0x19
 		}
 		return 0x17
+	}
+
+	// zone pass (the process zone has offset changes): well-formed replies whose calendar fields sit on the zone's
+	// transition days - only civil times that exist in the zone - through the operations that carry dates or times
+	if o.extraArg("zonepass") == "1" {
+		n := 120
+		if thorough {
+			n = 1500
+		}
+		for _, op := range []string{"GetStatus", "GetTime", "SetTime", "GetEvent", "GetCardByIndex", "GetCardByID", "GetTimeProfile", "GetDevice"} {
+			next()
+			for i := 0; i < n; i++ {
+				run(op, serialOf(), "zone", func(l layout, req []byte) []byte {
+					m := zoneMessage(rng, l, som(op), req[4:8])
+					switch op {
+					case "GetCardByID":
+						copy(m[8:12], req[8:12])
+					case "GetTimeProfile":
+						m[8] = req[8]
+					case "GetEvent", "GetCardByIndex":
+						copy(m[8:12], req[8:12])
+					}
+					return m
+				})
+			}
+		}
+		return w.close(), nil
 	}
 
 	for _, op := range replyOps() {
